@@ -293,3 +293,22 @@ func VerifC04Bytes() {
 	verif.Assert("C04/bytes/round-trip", verif.And(back.Id == m.Id, string(back.HexData) == string(m.HexData), string(back.UrlData) == string(m.UrlData)))
 	verif.Reach("C04/bytes/decided")
 }
+
+func VerifC05FlattenAnnotatedChild() {
+	m := &FlattenAnnotatedMsg{Id: verif.String("id", 2)}
+	if verif.Bool("stats.present") {
+		m.Stats = &Int64Msg{Big: verif.Int64("stats.big"), Name: verif.String("stats.name", 2), Plain: verif.Int64("stats.plain")}
+	}
+	data, err := m.MarshalJSON()
+	verif.Assert("C05/flatten-annotated/marshal-ok", err == nil)
+	big, name, plain := int64(0), "", int64(0)
+	if m.Stats != nil {
+		big, name, plain = m.Stats.Big, m.Stats.Name, m.Stats.Plain
+	}
+	want := verif.JObjOpt("id", verif.JStr(m.Id), m.Id != "",
+		"s_big", verif.JInt(big), big != 0,
+		"s_name", verif.JStr(name), name != "",
+		"s_plain", verif.JStr(strconv.FormatInt(plain, 10)), plain != 0)
+	verif.Assert("C05/flatten-annotated/child-keeps-its-own-annotations", verif.JEqual(data, want))
+	verif.Reach("C05/flatten-annotated/decided")
+}
